@@ -2,7 +2,8 @@
 (* C04 end to end.  One row per (input, container): the projections of the trees returned by   *)
 (*   etree fullTree, etree default (root element form), dom   x   namespaceHTMLElements on / off *)
 (* recorded by direct traversal of the returned ElementTree / minidom objects:                   *)
-(*   [frag, forms : Seq([b, ns, t, hns])]     t = list of top-level nodes (children of the        *)
+(*   [frag, trees, forms : Seq([b, ns, ti, hns])]   the tree of a form is trees[ti] (equal trees   *)
+(*   are stored once - a lossless encoding): the list of top-level nodes (children of the          *)
 (*   document / fragment; the html element alone for the etree root form; one pseudo node of      *)
 (*   kind "exc" when the parse raised), hns = raw namespace markers ("xhtml" | "none") of the       *)
 (*   elements the projection calls HTML.                                                          *)
@@ -30,28 +31,33 @@ DomFold(ts) == CanonAttrs(DFill(<<>>, AsAttrs(ts)))
 HasCollision(ts) == DomFold(ts) # ts
 \* does the dom tree d equal what DomStore predicts from the etree tree e?  (html / body may also have received merged
 \* attributes, whose interleaving with the evictions is not visible in the final tree: attributes not compared there)
-RECURSIVE Explained(_, _), ExplainedAll(_, _)
-Explained(e, d) ==
-    /\ e.k = d.k /\ e.ns = d.ns /\ e.n = d.n /\ e.d = d.d /\ e.p = d.p /\ e.s = d.s
-    /\ (d.a = DomFold(e.a) \/ (e.n \in {N_html, N_body} /\ HasCollision(e.a)))
-    /\ ExplainedAll(e.c, d.c)
-ExplainedAll(es, ds) == Len(es) = Len(ds) /\ \A i \in 1..Len(es) : Explained(es[i], ds[i])
+\* Ds = the deviations allowed to explain the difference
+RECURSIVE Explained(_, _, _), ExplainedAll(_, _, _)
+Explained(e, d, Ds) ==
+    /\ e.k = d.k /\ e.ns = d.ns /\ e.d = d.d /\ e.p = d.p /\ e.s = d.s
+    /\ d.n = (IF e.k = "doctype" /\ "dom-doctype-name-colon" \in Ds THEN AfterFirstColon(e.n) ELSE e.n)
+    /\ (IF "dom-colon-attr-collision" \in Ds THEN d.a = DomFold(e.a) \/ (e.n \in {N_html, N_body} /\ HasCollision(e.a)) ELSE d.a = e.a)
+    /\ ExplainedAll(e.c, d.c, Ds)
+ExplainedAll(es, ds, Ds) == Len(es) = Len(ds) /\ \A i \in 1..Len(es) : Explained(es[i], ds[i], Ds)
 
 Judge(tr) ==
     LET F == tr.forms
+        T(f) == tr.trees[f.ti]                                      \* forms share trees: t is stored once per distinct value
         IsRoot(f) == f.b = "etree-root" /\ ~tr.frag
-        Raised(f) == Len(f.t) = 1 /\ f.t[1].k = "exc"
+        Raised(f) == Len(T(f)) = 1 /\ T(f)[1].k = "exc"
         efull == CHOOSE i \in 1..Len(F) : F[i].b = "etree-full" /\ F[i].ns
         dfull == CHOOSE i \in 1..Len(F) : F[i].b = "dom" /\ F[i].ns
-        ref == F[efull].t
+        ref == T(F[efull])
         Want(f, r) == IF IsRoot(f) /\ ~Raised(F[efull]) THEN HtmlSubtree(r) ELSE r
         NsOK(f) == \A j \in 1..Len(f.hns) : f.hns[j] = (IF f.ns THEN "xhtml" ELSE "none")
     IN IF \E i \in 1..Len(F) : ~NsOK(F[i]) THEN "reject:html-namespace"
-       ELSE IF \E i \in 1..Len(F) : F[i].b # "dom" /\ F[i].t # Want(F[i], ref) THEN "reject:etree-forms-differ"
-       ELSE IF \E i \in 1..Len(F) : F[i].b = "dom" /\ F[i].t # F[dfull].t THEN "reject:dom-forms-differ"
-       ELSE IF F[dfull].t = ref THEN (IF Raised(F[efull]) THEN "accept-raised" ELSE "accept")
-       ELSE IF "dom-colon-attr-collision" \in KnownDefects /\ ~Raised(F[efull]) /\ ~Raised(F[dfull]) /\ ExplainedAll(ref, F[dfull].t)
-            THEN "finding:dom-colon-attr-collision"
+       ELSE IF \E i \in 1..Len(F) : F[i].b # "dom" /\ T(F[i]) # Want(F[i], ref) THEN "reject:etree-forms-differ"
+       ELSE IF \E i \in 1..Len(F) : F[i].b = "dom" /\ T(F[i]) # T(F[dfull]) THEN "reject:dom-forms-differ"
+       ELSE IF T(F[dfull]) = ref THEN (IF Raised(F[efull]) THEN "accept-raised" ELSE "accept")
+       ELSE IF Raised(F[efull]) \/ Raised(F[dfull]) THEN "reject:etree-vs-dom"
+       ELSE IF \E x \in KnownDefects : ExplainedAll(ref, T(F[dfull]), {x})
+            THEN "finding:" \o (CHOOSE x \in KnownDefects : ExplainedAll(ref, T(F[dfull]), {x}))
+       ELSE IF ExplainedAll(ref, T(F[dfull]), KnownDefects) THEN "finding:both"
        ELSE "reject:etree-vs-dom"
 Init == tid \in 1..Len(Traces) /\ verdict = "run"
 Step == verdict = "run" /\ verdict' = Judge(Traces[tid]) /\ UNCHANGED tid
